@@ -1,6 +1,6 @@
 ----------------------------- MODULE MCLoader -----------------------------
 EXTENDS Loader, Json, CSV, IOUtils
-Faults == {"ok", "missing", "perm", "isdir", "malformed", "empty"}
+Faults == {"ok", "missing", "perm", "isdir", "malformed", "empty", "utf16"}
 Cfgs == [main : Faults, personal : Faults, maxatt : {-1, 0, 1, 2, 3, 4}, base : {0, 1, 2}, factor : {1, 2, 3}, cap : {1, 3, 50}, heal : {0, 1, 2}]
 Init == cfg \in Cfgs /\ att = 0 /\ delays = <<>> /\ res = NoRes
         /\ pc = IF EffMax >= 1 THEN "try" ELSE "fallback"
